@@ -120,3 +120,34 @@ def score_reach(a0: bool, a1: bool) -> bool:
     Feedback(label="f1", category="instructor", message="M1", activate=a1, score=0.25, valence=-1, report=r)
     final = simple.resolve(r)
     return not (a0 and not a1 and final.score == 0.25)
+
+
+PERCENTS = [("+2.5%", Fraction(1, 40)), ("12.5%", Fraction(1, 8)), ("-0.5%", Fraction(-1, 200)), ("+33%", Fraction(33, 100)),
+            ("+0.25", Fraction(1, 4)), ("+100%", Fraction(1))]
+
+
+def percent_forms(p0: bool, p1: bool, p2: bool, n0: bool, n1: bool, triggered_negative: bool) -> bool:
+    """
+    'N%' equals N/100 also for fractional percents: 1..4 identical positive feedbacks scoring a literal from
+    {+2.5%, 12.5%, -0.5%, +33%, +0.25, +100%} next to a triggered gently(): the final score is the exact sum rounded to
+    two decimals (sums whose third decimal is a 5 are skipped: float rounding of ties is not part of the property).
+
+    pre: True
+    post: _
+    """
+    if tick():
+        return True
+    k, n = bits(p0, p1, p2), 1 + bits(n0, n1)
+    if k >= len(PERCENTS):
+        return True
+    lit, val = PERCENTS[k]
+    total = val * n
+    if (total * 1000) % 10 == 5:
+        return True
+    r = Report()
+    for i in range(n):
+        Feedback(label="p%d" % i, category="instructor", message="ok", valence=1, score=lit, muted=True, report=r)
+    Feedback(label="bad", category="instructor", message="bad", valence=-1, activate=triggered_negative, report=r)
+    Feedback(label="shown", category="runtime", message="shown", report=r)
+    final = simple.resolve(r)
+    return final.score == round(float(total), 2)
